@@ -250,6 +250,11 @@ def decorate(r, case, pool):
         other = r.choice(pool)
         if other["fmt"] == case["fmt"]:
             case["prewrite"] = other["data"]
+    if r.random() < 0.06:
+        # options outside the model that run BEFORE the result is saved: plotting (to a file) with colour-map bounds inside the
+        # error range / a percentile bound; they must not change what is stored (the stored values are the computed ones)
+        case["plot_extra"] = r.choice([["--plot_colormap_min", "0", "--plot_colormap_max", "0.05"], ["--plot_colormap_max_percentile", "50"],
+                                       ["--plot_colormap_min", "0", "--plot_colormap_max", "1e9"], ["--plot_colormap_max_percentile", "10"], []])
     return case
 
 
@@ -439,6 +444,8 @@ def argv_of(case, ref, est, zip_path):
         a.append(f"--t_offset={case['off']!r}")
     if o.get("motion_filter") is not None:
         a += ["--motion_filter", repr(o["motion_filter"][0]), repr(o["motion_filter"][1])]
+    if case.get("plot_extra") is not None:
+        a += ["--save_plot", os.path.join(os.path.dirname(zip_path) or ".", "plot_out.pdf")] + list(case["plot_extra"])
     return a
 
 
